@@ -18,6 +18,9 @@ PRESERVING = {
     "m08": "made to preserve C10: parsing accepts both hex cases",
     "m21": "single removals repaired through the consistency source only make the read-repair source lag, which keeps tombstones longer "
            "(never shorter); reads, convergence and purging stay within the properties",
+    "m28": "the keyspace tracker decides which synchronisations may be skipped, not who is addressed: an entry kept for a departed peer is "
+           "never consulted again unless the peer comes back, and then the stamps it announces are new ones (shows as drift in C16's evidence)",
+    "m29": "a joined entry for an id that is already held only arrives together with the `left` entry of the same id, which is applied first",
     "m22": "the two halves of a batch commute: every entry goes through will_apply with its own stamp (shows as drift only)",
 }
 
